@@ -136,6 +136,12 @@ fn gen_ufo(rng: &mut Rng, sh: &Shape) -> UfoSpec {
     // component bases: a small sub-pool (heavy reuse) plus a few names of no glyph at all
     let mut cpool: Vec<String> = (0..sh.comp_pool).map(|_| rng.pick(&pool).clone()).collect();
     cpool.push("no.such.glyph".to_string());
+    if sh.legacy {
+        // names that reach the interner only as component bases
+        for k in 0..30 {
+            cpool.push(format!("only.base.{}", k));
+        }
+    }
     if sh.cold_base {
         cpool.push("cold.base".to_string());
     }
@@ -225,7 +231,14 @@ fn gen_ufo(rng: &mut Rng, sh: &Shape) -> UfoSpec {
 fn glif_text(rng: &mut Rng, g: &GlyphSpec) -> String {
     let mut s = String::from("<?xml version=\"1.0\" encoding=\"UTF-8\"?>\n");
     let fmt = if g.broken == 6 { "7" } else { "2" };
-    let _ = writeln!(s, "<glyph name=\"{}\" format=\"{}\">", xml_esc(&g.inner), fmt);
+    // legal surface variation: attribute order, quote character, optional formatMinor
+    let q = if rng.chance(1, 4) { '\'' } else { '"' };
+    let minor = if rng.chance(1, 5) && g.broken != 6 { format!(" formatMinor={}0{}", q, q) } else { String::new() };
+    if rng.chance(1, 2) {
+        let _ = writeln!(s, "<glyph name={}{}{} format={}{}{}{}>", q, xml_esc(&g.inner), q, q, fmt, q, minor);
+    } else {
+        let _ = writeln!(s, "<glyph format={}{}{}{} name={}{}{}>", q, fmt, q, minor, q, xml_esc(&g.inner), q);
+    }
     if g.broken == 2 {
         s.push_str("  <advance width=\"abc\"/>\n");
     } else {
@@ -271,14 +284,22 @@ fn glif_text(rng: &mut Rng, g: &GlyphSpec) -> String {
         s.push_str("    <contour>\n      <point x=\"0\" y=\"0\" type=\"move\"/>\n      <point x=\"5\" y=\"5\"/>\n    </contour>\n");
     }
     for (k, b) in g.bases.iter().enumerate() {
-        let _ = write!(s, "    <component base=\"{}\"", xml_esc(b));
+        let base_first = rng.chance(1, 2);
+        s.push_str("    <component");
+        if base_first {
+            let _ = write!(s, " base=\"{}\"", xml_esc(b));
+        }
         if rng.chance(1, 2) {
             let _ = write!(s, " xOffset=\"{}\" yOffset=\"{}\"", rng.range(-300, 300), k);
         }
         if rng.chance(1, 4) {
             let _ = write!(s, " xScale=\"0.5\" yScale=\"{}\"", rng.range(1, 3));
         }
-        let _ = writeln!(s, "{}/>", next_id(rng));
+        s.push_str(&next_id(rng));
+        if !base_first {
+            let _ = write!(s, " base='{}'", xml_esc(b));
+        }
+        s.push_str("/>\n");
     }
     if g.broken == 4 {
         s.push_str("    <component base=\"\"/>\n");
@@ -327,28 +348,41 @@ fn write_ufo(rng: &mut Rng, u: &UfoSpec, dir: &Path) {
         let mut gs = String::new();
         let mut ks = String::new();
         let mut used: HashMap<String, ()> = HashMap::new();
-        let ngroups = if u.legacy { 12 } else { 3 };
         let mut firsts = vec![];
-        for k in 0..ngroups.min(distinct.len()) {
-            let g = all[rng.below(all.len() as u64) as usize];
-            let gname = if u.legacy {
-                match k % 4 {
-                    0 => g.key.clone(),
-                    1 => g.bases.first().cloned().unwrap_or_else(|| "no.such.glyph".into()),
-                    2 => g.inner.clone(),
-                    _ => format!("@grp{}", k),
+        if u.legacy {
+            // one group per name the interner should hold after loading (keys, glif-internal names,
+            // component bases) plus a few it should not hold: whether upconversion renames the
+            // group tells whether the name is in the interner
+            let mut names: Vec<String> = vec![];
+            for g in &all {
+                for n in std::iter::once(&g.key).chain(std::iter::once(&g.inner)).chain(g.bases.iter()) {
+                    if used.insert(n.clone(), ()).is_none() && names.len() < 250 {
+                        names.push(n.clone());
+                    }
                 }
-            } else {
-                format!("public.kern1.g{}", k)
-            };
-            if used.insert(gname.clone(), ()).is_some() {
-                continue;
             }
-            let _ = writeln!(gs, "<key>{}</key>\n<array>\n<string>{}</string>\n</array>", xml_esc(&gname), xml_esc(&distinct[k]));
-            firsts.push(gname);
+            for k in 0..5 {
+                names.push(format!("@grp{}", k));
+            }
+            for (k, gname) in names.iter().enumerate() {
+                let _ = writeln!(gs, "<key>{}</key>\n<array>\n<string>{}</string>\n</array>", xml_esc(gname), xml_esc(&distinct[k % distinct.len()]));
+                firsts.push(gname.clone());
+            }
+        } else {
+            for k in 0..3usize.min(distinct.len()) {
+                let gname = format!("public.kern1.g{}", k);
+                let _ = writeln!(gs, "<key>{}</key>\n<array>\n<string>{}</string>\n</array>", xml_esc(&gname), xml_esc(&distinct[k]));
+                firsts.push(gname);
+            }
         }
-        for f in firsts.iter() {
-            let _ = writeln!(ks, "<key>{}</key>\n<dict>\n<key>{}</key>\n<integer>{}</integer>\n</dict>", xml_esc(f), xml_esc(&all[rng.below(all.len() as u64) as usize].key), rng.range(-80, 80));
+        for (k, f) in firsts.iter().enumerate() {
+            let other = &all[rng.below(all.len() as u64) as usize].key;
+            if u.legacy && k % 2 == 1 {
+                // the group on the second side
+                let _ = writeln!(ks, "<key>{}</key>\n<dict>\n<key>{}</key>\n<integer>{}</integer>\n</dict>", xml_esc(&format!("k1st{}", k)), xml_esc(f), rng.range(-80, 80));
+            } else {
+                let _ = writeln!(ks, "<key>{}</key>\n<dict>\n<key>{}</key>\n<integer>{}</integer>\n</dict>", xml_esc(f), xml_esc(other), rng.range(-80, 80));
+            }
         }
         write_file(&dir.join("groups.plist"), &format!("{}<dict>\n{}</dict>\n</plist>\n", PLIST_HEAD, gs));
         write_file(&dir.join("kerning.plist"), &format!("{}<dict>\n{}</dict>\n</plist>\n", PLIST_HEAD, ks));
@@ -428,10 +462,10 @@ fn shapes(rng: &mut Rng, thorough: bool) -> Vec<Shape> {
     let mut v = vec![];
     let mult = if thorough { 4 } else { 1 };
     // small ones (also run through the Coq model)
-    for k in 0..(16 * mult) {
+    for k in 0..(24 * mult) {
         v.push(Shape {
             layers: rng.range(1, 4) as usize,
-            names: rng.range(2, 40) as usize,
+            names: if k % 3 == 2 { rng.range(40, 120) as usize } else { rng.range(2, 40) as usize },
             density: rng.range(20, 100) as u64,
             comp_pool: rng.range(1, 5) as usize,
             max_comps: rng.range(0, 5) as u64,
@@ -456,7 +490,7 @@ fn shapes(rng: &mut Rng, thorough: bool) -> Vec<Shape> {
             poison: if k % 8 == 7 { 2 } else { 0 },
             stale: 10,
             cold_base: k % 2 == 0,
-            legacy: k % 8 == 4,
+            legacy: k % 4 == 1,
         });
     }
     // large
